@@ -231,12 +231,73 @@ impl RealServer {
     }
 }
 
-/// A port on `ip` that nothing listens on (for "connection refused").
-pub fn closed_tcp_port(ip: IpAddr) -> Option<u16> {
-    let l = TcpListener::bind(SocketAddr::new(ip, 0)).ok()?;
-    let p = l.local_addr().ok()?.port();
-    drop(l);
-    Some(p)
+/// A loopback port that refuses TCP connections for as long as the value lives: a stream socket that is bound but never
+/// listens. (A port that merely WAS free a moment ago can be handed to another server by the kernel -- in another thread or
+/// another check's process -- before it is used: seen once, as a "refused" connection that was answered.)
+pub struct HeldPort {
+    pub port: u16,
+    fd: i32,
+    _udp: Option<UdpSocket>,
+}
+
+impl Drop for HeldPort {
+    fn drop(&mut self) {
+        if self.fd >= 0 {
+            unsafe {
+                libc::close(self.fd);
+            }
+        }
+    }
+}
+
+pub fn refusing_tcp_port(ip: IpAddr) -> Option<HeldPort> {
+    unsafe {
+        let (family, fd) = match ip {
+            IpAddr::V4(_) => (libc::AF_INET, libc::socket(libc::AF_INET, libc::SOCK_STREAM, 0)),
+            IpAddr::V6(_) => (libc::AF_INET6, libc::socket(libc::AF_INET6, libc::SOCK_STREAM, 0)),
+        };
+        if fd < 0 {
+            return None;
+        }
+        let ok = match ip {
+            IpAddr::V4(a) => {
+                let mut sa: libc::sockaddr_in = std::mem::zeroed();
+                sa.sin_family = family as libc::sa_family_t;
+                sa.sin_port = 0;
+                sa.sin_addr = libc::in_addr { s_addr: u32::from_ne_bytes(a.octets()) };
+                libc::bind(fd, &sa as *const _ as *const libc::sockaddr, std::mem::size_of::<libc::sockaddr_in>() as libc::socklen_t) == 0
+            }
+            IpAddr::V6(a) => {
+                let mut sa: libc::sockaddr_in6 = std::mem::zeroed();
+                sa.sin6_family = family as libc::sa_family_t;
+                sa.sin6_port = 0;
+                sa.sin6_addr = libc::in6_addr { s6_addr: a.octets() };
+                libc::bind(fd, &sa as *const _ as *const libc::sockaddr, std::mem::size_of::<libc::sockaddr_in6>() as libc::socklen_t) == 0
+            }
+        };
+        if !ok {
+            libc::close(fd);
+            return None;
+        }
+        let mut ss: libc::sockaddr_storage = std::mem::zeroed();
+        let mut len = std::mem::size_of::<libc::sockaddr_storage>() as libc::socklen_t;
+        if libc::getsockname(fd, &mut ss as *mut _ as *mut libc::sockaddr, &mut len) != 0 {
+            libc::close(fd);
+            return None;
+        }
+        let port = match ip {
+            IpAddr::V4(_) => u16::from_be((*(&ss as *const _ as *const libc::sockaddr_in)).sin_port),
+            IpAddr::V6(_) => u16::from_be((*(&ss as *const _ as *const libc::sockaddr_in6)).sin6_port),
+        };
+        Some(HeldPort { port, fd, _udp: None })
+    }
+}
+
+/// A loopback UDP port that stays silent for as long as the value lives (a bound socket nobody reads).
+pub fn silent_udp_port(ip: IpAddr) -> Option<HeldPort> {
+    let s = UdpSocket::bind(SocketAddr::new(ip, 0)).ok()?;
+    let port = s.local_addr().ok()?.port();
+    Some(HeldPort { port, fd: -1, _udp: Some(s) })
 }
 
 /// Transport fidelity: replays a case whose scripted run succeeded over real loopback sockets, with a fresh
